@@ -1,0 +1,47 @@
+//go:build verif
+
+package ascii
+
+// Contracts for the verification harness under /verif (comment-only file).
+//
+// C15 (join_template): the byte classes the hand-written start / continue
+// matchers are built from.  Each class is stated as the explicit set of byte
+// values its name documents (ASCII only), so a matcher's contract can be read
+// without opening this package.
+
+//@ func IsSpace
+//@   pure
+//@   ensures result == (c == ' ' || c == '\n' || c == '\t')
+
+//@ func IsDigit
+//@   pure
+//@   ensures result == ('0' <= c && c <= '9')
+
+//@ func IsHexDigit
+//@   pure
+//@   ensures result == (('0' <= c && c <= '9') || ('a' <= c && c <= 'f'))
+
+//@ func IsLowerCaseLetter
+//@   pure
+//@   ensures result == ('a' <= c && c <= 'z')
+
+//@ func IsUpperCaseLetter
+//@   pure
+//@   ensures result == ('A' <= c && c <= 'Z')
+
+//@ func IsLetter
+//@   pure
+//@   ensures result == (('a' <= c && c <= 'z') || ('A' <= c && c <= 'Z'))
+
+//@ func IsLetterOrUnderscore
+//@   pure
+//@   ensures result == (('a' <= c && c <= 'z') || ('A' <= c && c <= 'Z') || c == '_')
+
+//@ func IsLetterOrUnderscoreOrDigit
+//@   pure
+//@   ensures result == (('a' <= c && c <= 'z') || ('A' <= c && c <= 'Z') || c == '_' || ('0' <= c && c <= '9'))
+
+//@ func ToLower
+//@   pure
+//@   ensures 'A' <= c && c <= 'Z' ==> result == c + 32
+//@   ensures !('A' <= c && c <= 'Z') ==> result == c
